@@ -80,6 +80,13 @@ def run(ctx):
         txt = '\n'.join(lines) + f"\nFUNCTION_BLOCK N8500\n  VAR\n    N8501 : STRING := '{rng.choice(pool)}x{rng.choice(pool)}';\n  END_VAR\nEND_FUNCTION_BLOCK\n"
         if rng.random() < 0.3: txt = txt.replace('\n', '\r\n')
         progs.append((kind, txt))
+    # programs that end in a lexical error whose text is long and not ASCII (an unclosed comment or string running to
+    # the end of the file): the diagnostic quotes that text, in every encoding
+    for n in ([30, 170] if ctx.quick() else [10, 40, 80, 159, 160, 161, 170, 300, 1000]):
+        for opener in ('(* ', "x := '", '"'):
+            pool = [c for c in NONASCII if c in CP1252_OK]
+            body = ''.join(rng.choice(pool + ['a', ' ']) for _ in range(n))
+            progs.append(('lexical-error-tail', f'PROGRAM N8600\nVAR\n  N8601 : INT;\nEND_VAR\nN8601 := 1;\nEND_PROGRAM\n{opener}{body}'))
     jobs = []
     for pi, (kind, txt) in enumerate(progs):
         for enc, data in encodings(txt).items():
